@@ -76,7 +76,7 @@ type Scenario struct {
 }
 
 var labelNames = []string{"app", "env", "zone", "job", "le", "host-name", "1abc", "a.b", "__ttl_days__"}
-var labelVals = []string{"api", "prod", "eu", "x", "7", "", "a\"b", "ü", "with space", "0", "bell\a", "tab\tnl\n", "\u007f\u2028", strings.Repeat("long", 30)}
+var labelVals = []string{"api", "prod", "eu", "x", "7", "", `C:\temp\new`, `^\d+$`, `logs\`, "a\"b", "ü", "with space", "0", "bell\a", "tab\tnl\n", "\u007f\u2028", strings.Repeat("long", 30)}
 
 func genStream(rt *rapid.T, l string, metricOnly, logOnly bool, big bool, pool [][][2]string) Stream {
 	s := Stream{}
